@@ -141,6 +141,18 @@ def merge_asserts(res: CheckResult, repo: str, want_c=None):
                 res.add('NO-ASSERT', f.short, norm_text(a)[:120], False,
                         'validation written with assert disappears under python -O: the input it rejects then reaches the mutation code', f.file, a.lineno)
     res.add('NO-ASSERT', 'merges', f'assert statements in {n} merge / helper functions', True)
+    # the same for the other interpreter switch: an Element used as a condition raises under -W error (and is false for a
+    # childless element), wherever in the merge it stands
+    res.rules['NO-ELEM-BOOL'] = RULES['NO-ELEM-BOOL'] + ' inside a merge or a tree helper (false for a childless element; DeprecationWarning, an exception under -W error)'
+    hits = 0
+    for cname, r in collect_merge(res, repo).items():
+        if want_c is not None and not want_c(cname):
+            continue
+        for f in r['findings']:
+            if f['rule'] == 'NO-ELEM-BOOL':
+                hits += 1
+                res.add('NO-ELEM-BOOL', f['func'], f['construct'], False, f['detail'], f['file'], f['line'], f['witness'])
+    res.add('NO-ELEM-BOOL', 'merges', 'conditions evaluated on Element values in the interpreted merges', not hits)
 
 
 def norm_text(node):
@@ -444,7 +456,7 @@ READS_OWN_TAG = {
 }
 SIMPLE_GETTERS = {'Story.id', 'Story.slug', 'Item.id', 'Item.slug', 'Item.type', 'Item.object_id', 'Item.mos_id'}
 LISTINGS = ['RunningOrder.stories', 'RunningOrder.script', 'RunningOrder.body', 'Story.items', 'Story.script', 'Story.body']
-ORDER_BREAKERS = ('sorted', 'reversed', 'set', 'sort', 'reverse', 'frozenset')
+ORDER_BREAKERS = ('sorted', 'reversed', 'set', 'sort', 'reverse', 'frozenset', 'dict.values')
 
 
 STALE_TEXT = 'no property getter of a running-order / message object memoises document-derived values on the object (merges change the document afterwards)'
@@ -749,6 +761,17 @@ def prop_C07(repo, tier):
         ok = bool(present) and all(o['result'] == 'raise MosCompletedMergeError' and not o['effects'] and not o['mutated'] for o in present)
         res.add('GUARD-DOM', 'RunningOrder.__add__', f'completed running order + {cname}', ok,
                 '' if ok else f'with the marker present the outcomes are {[(o["result"], o["effects"]) for o in present]}')
+        ref = r.get('refusal')
+        if ref is not None:
+            if any(o['result'] == 'analysis-error' for o in ref):
+                res.error(f'GUARD-DOM: the refusal of a {cname} whose document is arbitrary could not be interpreted: {ref[0].get("msg")}')
+            else:
+                bad = [o for o in ref if o['result'] != 'raise MosCompletedMergeError' or o.get('mutated')]
+                b = bad[0] if bad else {}
+                res.add('GUARD-DOM', 'RunningOrder.__add__', f'completed running order + {cname} about whose document nothing is assumed', bool(ref) and not bad,
+                        '' if ref and not bad else (f'the refusal depends on the message: {b.get("result")} ({b.get("msg", "")}) from {b.get("text", "?")} in {b.get("func", "?")} '
+                                                    f'when the message lacks what that expression reads' if bad else 'no outcome'),
+                        b.get('file') or '', b.get('line') or 0)
         absent_ret = [o for o in r['outcomes'] if not o.get('guard_present') and o['result'] == 'return']
         if cname == 'RunningOrderEnd':
             ok = bool(absent_ret) and all(o.get('completed_after') == ['True'] for o in absent_ret)
@@ -852,8 +875,19 @@ def prop_C14(repo, tier):
             res.error(f'COMPLETED-FROM-DOCUMENT: {e}')
     rules_shape.serializer(res, prog)
     rules_shape.no_shared_memo(res, prog)
+    # the reading side of the round trip: a node kind that one constructor keeps (comments, processing instructions) and the
+    # constructor used for reading back drops cannot read back identically, so every constructor parses the default way
+    res.rules['SAME-PARSER'] = ('every MosFile constructor, interpreted, reaches its parse primitive without parser options: what from_file / from_s3 put into a '
+                                'running order is what from_string finds again in its serialisation')
+    for r in null_one(res, repo, 'classify'):
+        ps = [tuple(x) for v in (r.get('parses') or {}).values() for x in v]
+        if not ps:
+            continue
+        opts = sorted({k for _, _, kw in ps for k in kw})
+        res.add('SAME-PARSER', 'MosFile.' + r['name'], 'options passed to the ElementTree parse primitive', not opts,
+                '' if not opts else f'MosFile.{r["name"]} passes {opts} to the parser: the tree it builds is not the one the other constructors build from the same text')
     stale_cache(res, repo, merges=True, jobs=('accessors',), funcs=lambda f: f.split('.')[0] in ('MosFile', 'RunningOrder'))
-    res.floors = {'ROOT-WRITERS': 20, 'SERIALIZER': 2}
+    res.floors = {'ROOT-WRITERS': 20, 'SERIALIZER': 2, 'SAME-PARSER': 3}
     res.explanation = (
         'ENVELOPE CLAUSE ONLY. Decided statically: which effects any merge can have on the root element (exactly one running-order '
         'element: roReplace = one out / re-tagged deep copy in at the same slot; at most one completion record: roDelete appends one '
@@ -932,8 +966,15 @@ def prop_C09(repo, tier):
     tmp = CheckResult('C09', tier)
     rules_pred.accept_table(tmp, prog)
     res.rules['POST-STATE'] = 'the readers that merge() folds are all messages of the collection except the roCreate (which is the initial running order)'
-    for e in tmp.errors:
-        res.error(e)
+    rejected = [o for o in tmp.obligations if o.rule == 'ACCEPT-TABLE' and o.verdict == 'VIOLATED' and 'specification accept' in o.detail]
+    if rejected and any('no accepting row' in e for e in tmp.errors):
+        # a collection the specification accepts cannot even be constructed: its messages are never folded
+        o = rejected[0]
+        res.add('POST-STATE', o.where, 'collections the specification accepts are constructed', False,
+                f'{o.construct}: {o.detail}', o.file, o.line)
+    else:
+        for e in tmp.errors:
+            res.error(e)
     res.obligations.extend(o for o in tmp.obligations if o.rule == 'POST-STATE')
     res.floors = {'FOLD-LOOP': 2, 'FRESH-READ': 2, 'APPLY-VIA-ADD': 1, 'STRICT-RERAISE': 1, 'ONE-WARNING': 2, 'POST-STATE': 2}
     res.explanation = (
